@@ -398,7 +398,7 @@ def work_generated(seed, n):
                   labels=["outcome=" + status, "fmt=" + case["fmt"]] + ["op=" + u for u in case["used"] if "=*" not in u][:6] + (["code=" + str(key)] if status == "vtl" else []))
         if status in ("raw", "vtl_uncatalogued"):
             case = shrink_case(case, key)
-            site = "+".join(sorted(set(u for u in case["used"] if "=" not in u and u != "or_isnull"))[:3])
+            site = "+".join(sorted(set(u for u in case["used"] if "=" not in u and u != "or_isnull"))[:5])
             case = {k: v for k, v in case.items() if k not in ("tree", "wrap")}
             part.fail("%s:%s@%s" % (status, key, site), dict(kind="generated", case=case), text)
     prop()
